@@ -79,6 +79,10 @@ class ContractTask(Task):
         except PathEnd as e:
             outcome = "end:" + str(e)
         except OutOfSubset as e:
+            # the plan may have kept this branch only because its feasibility check timed out (load-dependent): an
+            # unsatisfiable path condition means the path does not exist, not that the function is out of reach
+            if C._pc_unsat(ctx):
+                return {"obs": [], "covered": [], "assumptions": list(reg.assumptions)}
             return {"obs": [], "oos": str(e), "covered": [], "assumptions": list(reg.assumptions)}
         out = []
         for vc in ctx.vcs:
